@@ -77,17 +77,33 @@ def param_index(tok):
 
 @dataclass(frozen=True)
 class AV:
+    """ids / elems: every pre-existing object the value / its elements MAY be.  dids / delems (subsets): those for which the analysis has
+    a contract ("classified"); the rest came out of callees without contract that were handed input state ("unclassifiable")."""
     ids: frozenset = frozenset()
     elems: frozenset = frozenset()
     fresh: bool = False
-    unknown: bool = False          # the IDENTITY of the value is unclassifiable (result of a callee without contract that got input state)
     kind: str = "?"
-    eunknown: bool = False         # its ELEMENTS may be unclassifiable values
+    dids: frozenset = None
+    delems: frozenset = None
     items: tuple = None            # tuple / list display of known length: abstract value per position (for `a, b = f(x)`)
+
+    def __post_init__(self):
+        if self.dids is None:
+            object.__setattr__(self, "dids", self.ids)
+        if self.delems is None:
+            object.__setattr__(self, "delems", self.elems)
 
     @property
     def tokens(self):
         return self.ids | self.elems
+
+    @property
+    def unknown(self):
+        return bool(self.ids - self.dids)
+
+    @property
+    def eunknown(self):
+        return bool(self.elems - self.delems)
 
     def join(self, other):
         if other is None:
@@ -95,34 +111,30 @@ class AV:
         items = None
         if self.items is not None and other.items is not None and len(self.items) == len(other.items):
             items = tuple(a.join(b) for a, b in zip(self.items, other.items))
-        return AV(self.ids | other.ids, self.elems | other.elems, self.fresh and other.fresh, self.unknown or other.unknown,
-                  self.kind if self.kind == other.kind else "?", self.eunknown or other.eunknown, items)
+        return AV(self.ids | other.ids, self.elems | other.elems, self.fresh and other.fresh, self.kind if self.kind == other.kind else "?",
+                  self.dids | other.dids, self.delems | other.delems, items)
+
+    def reachable(self, kind="?"):
+        """state reachable from this value, excluding the value itself: what was put into a NEW container, the internal lists and
+        elements of a pre-existing object"""
+        toks, dtoks = self.elems | star(self.ids), self.delems | star(self.dids)
+        return AV(toks, star(toks), False, kind, dtoks, star(dtoks))
 
     def element(self, pos=None):
-        """a value drawn from this one (indexing, iteration, unpacking, attribute of unknown meaning)"""
-        if pos is not None and self.items is not None and 0 <= pos < len(self.items):
-            return self.items[pos]
-        if self.items is not None and pos is None and self.items:
-            out = None
-            for it in self.items:
-                out = it.join(out)
-            return out
-        if not self.tokens:
-            return AV(unknown=self.unknown or self.eunknown, eunknown=self.unknown or self.eunknown)
-        u = self.unknown or self.eunknown
-        # elements of a NEW container are what was put into it (elems); elements of a pre-existing object are state reachable from it
-        toks = self.elems | star(self.ids)
-        return AV(toks, star(toks), False, u, "?", u)
+        """a value drawn from this one (indexing, iteration, unpacking)"""
+        if self.items is not None:
+            if pos is not None and 0 <= pos < len(self.items):
+                return self.items[pos]
+            if pos is None and self.items:
+                out = None
+                for it in self.items:
+                    out = it.join(out)
+                return out
+        return self.reachable()
 
-    def reachable(self):
-        """state reachable from this value, excluding the value itself"""
-        u = self.unknown or self.eunknown
-        toks = self.elems | star(self.ids)
-        return AV(toks, star(toks), False, u, "?", u)
-
-    def hits(self, k):
-        """tokens of parameter k among the possible identities"""
-        return {t for t in self.ids if param_index(t) == k}
+    def hits(self, k, definite=True):
+        src = self.dids if definite else self.ids
+        return {t for t in src if param_index(t) == k}
 
 
 OTHER = AV(kind="scalar")
@@ -131,18 +143,15 @@ OTHER = AV(kind="scalar")
 def fresh_of(*vals, kind="?"):
     """a NEW object whose elements / parts may be the given values"""
     toks = frozenset().union(*[v.ids | v.elems for v in vals]) if vals else frozenset()
-    return AV(frozenset(), toks, True, False, kind, any(v.unknown or v.eunknown for v in vals))
+    dtoks = frozenset().union(*[v.dids | v.delems for v in vals]) if vals else frozenset()
+    return AV(frozenset(), toks, True, kind, frozenset(), dtoks)
 
 
 def unknown_of(*vals):
-    """result of a callee without contract that was handed these values"""
+    """result of a callee without contract that was handed these values: may be / contain any of them, unclassifiably"""
     toks = frozenset().union(*[v.tokens for v in vals]) if vals else frozenset()
-    return AV(frozenset(), toks, False, bool(toks), "?", bool(toks))
-
-
-def reach(v, kind="?"):
-    """something stored inside / drawn from v"""
-    return AV(v.tokens, v.tokens, False, v.unknown, kind)
+    toks = toks | star(toks)
+    return AV(toks, toks, False, "?", frozenset(), frozenset())
 
 
 @dataclass
@@ -158,14 +167,12 @@ class WriteSite:
         """'violation' | 'unclassified' | 'ok' for the frame contract `nothing reachable from parameter <token> is modified`"""
         v = self.value
         k = param_index(token)
-        if not any(param_index(t) == k for t in v.tokens):
+        definite, possible = bool(v.hits(k, True)), bool(v.hits(k, False))
+        if not possible:
             return "ok"
-        hit = bool(v.hits(k))
         if self.kind == "augassign-name" and v.kind != "list":
-            return "unclassified" if (v.kind == "?" and (hit or v.unknown)) else "ok"
-        if v.unknown:
-            return "unclassified"
-        return "violation" if hit else "ok"
+            return "unclassified" if v.kind == "?" else "ok"
+        return "violation" if definite else "unclassified"
 
 
 @dataclass
@@ -300,16 +307,16 @@ class Analyzer:
         env = {}
         params = [p.arg for p in a.posonlyargs + a.args]
         for k, p in enumerate(params):
-            env[p] = AV(frozenset({f"P{k}"}), frozenset({f"P{k}*"}), False, False, "?")
+            env[p] = AV(frozenset({f"P{k}"}), frozenset({f"P{k}*"}), False, "?")
         extra = len(params)
         if a.vararg:
-            env[a.vararg.arg] = AV(frozenset(), frozenset({f"P{extra}", f"P{extra}*"}), True, False, "list")
+            env[a.vararg.arg] = AV(frozenset(), frozenset({f"P{extra}", f"P{extra}*"}), True, "list")
             extra += 1
         for p in a.kwonlyargs:
-            env[p.arg] = AV(frozenset({f"P{extra}"}), frozenset({f"P{extra}*"}), False, False, "?")
+            env[p.arg] = AV(frozenset({f"P{extra}"}), frozenset({f"P{extra}*"}), False, "?")
             extra += 1
         if a.kwarg:
-            env[a.kwarg.arg] = AV(frozenset(), frozenset({f"P{extra}", f"P{extra}*"}), True, False, "?")
+            env[a.kwarg.arg] = AV(frozenset(), frozenset({f"P{extra}", f"P{extra}*"}), True, "?")
         self.block(self.fn.body, env)
         s = Summary(returns=self.returns or OTHER, sites=self.sites, assumed=self.assumed, unsupported=self.unsupported)
         for st in self.sites:
@@ -381,10 +388,10 @@ class Analyzer:
         t = s.target
         if isinstance(t, ast.Name):
             cur = env.get(t.id, OTHER)
-            if cur.tokens and not cur.fresh:
+            if cur.ids:
                 self.write(s, "augassign-name", t, cur)
-            env[t.id] = cur.join(AV(frozenset(), rhs.tokens, cur.fresh, rhs.unknown, cur.kind)) if cur.kind == "list" else \
-                AV(cur.ids, cur.elems | rhs.tokens, cur.fresh, cur.unknown or rhs.unknown, cur.kind)
+            r = rhs.reachable() if cur.kind == "list" else rhs
+            env[t.id] = AV(cur.ids, cur.elems | r.ids | r.elems, cur.fresh, cur.kind, cur.dids, cur.delems | r.dids | r.delems)
         elif isinstance(t, ast.Subscript):
             self.write(s, "setitem", t.value, self.ev(t.value, env))
             self.ev(t.slice, env)
@@ -407,7 +414,8 @@ class Analyzer:
             starred = any(isinstance(e, ast.Starred) for e in t.elts)
             for pos, e in enumerate(t.elts):
                 if isinstance(e, ast.Starred):
-                    self.bind(e.value, AV(frozenset(), v.element().ids, True, False, "list", v.unknown or v.eunknown), env, node)
+                    el = v.element()
+                    self.bind(e.value, AV(frozenset(), el.ids | el.elems, True, "list", frozenset(), el.dids | el.delems), env, node)
                 else:
                     self.bind(e, v.element(None if starred else pos), env, node)
         elif isinstance(t, ast.Subscript):
@@ -518,7 +526,7 @@ class Analyzer:
         if m is None:
             self.unsupported.append((type(n).__name__, getattr(n, "lineno", 0)))
             vals = [self.ev(c, env) for c in ast.iter_child_nodes(n) if isinstance(c, ast.expr)]
-            return AV(frozenset(), frozenset().union(*[v.tokens for v in vals]) if vals else frozenset(), False, True, "?") if vals else OTHER
+            return unknown_of(*vals) if vals else OTHER
         return m(n, env)
 
     def e_Constant(self, n, env):
@@ -555,7 +563,7 @@ class Analyzer:
     def e_Tuple(self, n, env):
         v = self._display(n.elts, env, "?")
         if not any(isinstance(e, ast.Starred) for e in n.elts):
-            return AV(v.ids, v.elems, v.fresh, v.unknown, v.kind, v.eunknown, tuple(self.ev(e, env) for e in n.elts))
+            return AV(v.ids, v.elems, v.fresh, v.kind, v.dids, v.delems, tuple(self.ev(e, env) for e in n.elts))
         return v
 
     def e_Set(self, n, env):
@@ -628,7 +636,8 @@ class Analyzer:
         v = self.ev(n.value, env)
         self.ev(n.slice, env)
         if isinstance(n.slice, ast.Slice):
-            return AV(frozenset(), v.element().ids, True, False, v.kind, v.unknown or v.eunknown)          # x[a:b]: a new sequence of the same elements
+            el = v.element()
+            return AV(frozenset(), el.ids | el.elems, True, v.kind, frozenset(), el.dids | el.delems)          # x[a:b]: a new sequence of the same elements
         if isinstance(n.slice, ast.Constant) and isinstance(n.slice.value, int):
             return v.element(n.slice.value)
         return v.element()
@@ -641,11 +650,10 @@ class Analyzer:
         if n.attr in SCALAR_ATTRS:
             return OTHER
         c = ATTR_CONTRACTS.get(n.attr)
-        u = v.unknown or v.eunknown
-        r = v.reachable()
+        r = v.reachable(kind)
         if c == "fresh":
-            return AV(frozenset(), r.ids, True, False, kind, u)
-        return AV(r.ids, r.elems, False, r.unknown, kind, r.eunknown)
+            return AV(frozenset(), r.ids | r.elems, True, kind, frozenset(), r.dids | r.delems)
+        return r
 
     # ------------------------------------------------------------------ calls
     def e_Call(self, n, env):
@@ -702,8 +710,8 @@ class Analyzer:
         """container.append(x): the container's elements now include x (only tracked for plain names)"""
         if isinstance(recv_node, ast.Name) and recv_node.id in env:
             toks = frozenset().union(*[v.tokens for v in vals]) if vals else frozenset()
-            unk = any(v.unknown or v.eunknown for v in vals)
-            env[recv_node.id] = AV(recv.ids, recv.elems | toks, recv.fresh, recv.unknown, recv.kind, recv.eunknown or unk)
+            dtoks = frozenset().union(*[v.dids | v.delems for v in vals]) if vals else frozenset()
+            env[recv_node.id] = AV(recv.ids, recv.elems | toks, recv.fresh, recv.kind, recv.dids, recv.delems | dtoks)
 
     def _plain_call(self, n, name, last, args, kwargs, allv, tainted, env):
         if name in LIB_ARG_MUTATORS:
@@ -802,42 +810,45 @@ class Analyzer:
             if k in summ.mutates:          # the callee writes the argument object itself
                 self.write(n, f"call-mutates-arg:{fn.name}#{k}", node, v)
             if k in summ.mutates_reach:    # the callee writes state reachable from the argument (an internal list, an element)
-                self.write(n, f"call-mutates-reachable:{fn.name}#{k}", node, v.reachable())
+                r_ = v.reachable()
+                if not v.ids:
+                    # a NEW object built from input state (a DAG of nodes wrapping the operators, ...): what is reachable from it may be
+                    # new intermediate objects or input objects -- one level of `elems` cannot tell: unclassifiable
+                    r_ = AV(r_.ids, r_.elems, False, r_.kind, frozenset(), frozenset())
+                self.write(n, f"call-mutates-reachable:{fn.name}#{k}", node, r_)
             if k in summ.unclassified and k not in summ.mutates and k not in summ.mutates_reach:
-                self.write(n, f"call-may-mutate-arg:{fn.name}#{k}", node, AV(frozenset(), v.tokens, False, True, v.kind, True))
-        tainted_args = any(v.tokens for v in allv)
-
+                t_ = v.tokens | star(v.tokens)
+                self.write(n, f"call-may-mutate-arg:{fn.name}#{k}", node, AV(t_, t_, False, v.kind, frozenset(), frozenset()))
         def inst(r):
             """the callee's abstract value (over its parameter tokens) in terms of the caller's values"""
-            out = AV(frozenset(), frozenset(), r.fresh, r.unknown and tainted_args, r.kind, r.eunknown and tainted_args,
-                     None if r.items is None else tuple(inst(x) for x in r.items))
-            ids, elems = frozenset(), frozenset()
-            unk, eunk = out.unknown, out.eunknown
+            items = None if r.items is None else tuple(inst(x) for x in r.items)
+            ids = elems = dids = delems = frozenset()
             fresh = r.fresh
 
-            def arg_for(t):
+            def src_of(t):
                 k = param_index(t)
-                return bound[k][1] if k in bound else None
+                if k not in bound:
+                    return None
+                return bound[k][1] if not t.endswith("*") else bound[k][1].reachable()
             for t in r.ids:
-                a_ = arg_for(t)
-                if a_ is None:
+                src = src_of(t)
+                if src is None:
                     continue
-                src = a_ if not t.endswith("*") else a_.reachable()
+                definite = t in r.dids
                 ids |= src.ids
                 elems |= src.elems
-                unk = unk or src.unknown
-                eunk = eunk or src.eunknown
-                fresh = fresh and False if src.ids or not src.fresh else fresh and src.fresh
-                if not t.endswith("*") and len(r.ids) == 1 and not r.elems - star(r.ids) and out.items is None and a_.items is not None:
-                    out = AV(out.ids, out.elems, out.fresh, out.unknown, out.kind, out.eunknown, a_.items)
+                dids |= src.dids if definite else frozenset()
+                delems |= src.delems if definite else frozenset()
+                fresh = fresh and src.fresh and not src.ids
+                if not t.endswith("*") and len(r.ids) == 1 and items is None and src.items is not None:
+                    items = src.items
             for t in r.elems:
-                a_ = arg_for(t)
-                if a_ is None:
+                src = src_of(t)
+                if src is None:
                     continue
-                src = a_ if not t.endswith("*") else a_.reachable()
                 elems |= src.ids | src.elems
-                eunk = eunk or src.unknown or src.eunknown
-            return AV(ids, elems, (r.fresh or fresh) and not ids, unk, r.kind, eunk, out.items)
+                delems |= (src.dids | src.delems) if t in r.delems else frozenset()
+            return AV(ids, elems, (r.fresh or fresh) and not ids, r.kind, dids, delems, items)
         return inst(summ.returns)
 
 
